@@ -4,9 +4,10 @@
     distributions.rst, constraints.rst and the guide, not from the code):
     [skipped], [doc_window], [doc_dep_input], [value_spec].
 
-    Out of scope (partial): liveness of the resample loop - whether
-    [sample_continuous] ever returns depends on the distribution; every
-    theorem here is of the form "if the model returns, then ...". *)
+    Every theorem here is of the form "if the model returns, then ...".
+    Liveness of the resample loop relative to the stream of draws is in
+    Out/ContinuousLive.v, the exact reading of [__check_dependency] (and the
+    designs on which sampling cannot raise) in Out/ContinuousDeps.v. *)
 From Coq Require Import ZArith List Bool String Lia ZifyBool.
 From SP Require Import Out.Continuous.
 Import ListNotations.
